@@ -49,6 +49,9 @@ Env == <<
   [n |-> "Nul", kind |-> "type", params |-> <<"X">>, ty |-> MappedK("K", KeyOf(Param("X")), Uni(<<Index(Param("X"), Param("K")), TNull>>), FALSE)],
   [n |-> "PG",  kind |-> "type", params |-> <<"X">>, ty |-> Util("Partial", <<OO(<<Prop("a", Param("X"), FALSE), Prop("b", Arr(Param("X")), FALSE)>>)>>)],
   [n |-> "CG",  kind |-> "type", params |-> <<"X">>, ty |-> Cond(Param("X"), TString, LS("s"), LS("o"))],
+  \* a generic interface whose extends clause mentions its type parameter (named like the declared alias X = number)
+  [n |-> "BaseG", kind |-> "interface", params |-> <<"X">>, ty |-> OO(<<Prop("v", Param("X"), FALSE)>>), ext |-> <<>>],
+  [n |-> "BoxG",  kind |-> "interface", params |-> <<"X">>, ty |-> OO(<<Prop("label", TString, FALSE)>>), ext |-> <<App("BaseG", <<Param("X")>>)>>],
   [n |-> "Two", kind |-> "type", params |-> <<"A", "B">>, ty |-> OO(<<Prop("l", Param("A"), FALSE), Prop("r", Param("B"), FALSE), Prop("n", App("G", <<Param("B")>>), TRUE)>>)]
 >>
 RO == Ref("O")
@@ -96,6 +99,12 @@ ULeaves == <<
   App("Tagged", <<LS("point")>>), App("Plain", <<LS("point")>>), App("Nul", <<RP>>), App("Nul", <<RO>>), App("PG", <<TNumber>>),
   App("CG", <<LS("a")>>), App("CG", <<TNumber>>), App("G", <<MappedK("K", RK, Param("K"), FALSE)>>),
   App("Two", <<TString, TNumber>>), App("Two", <<TNumber, TString>>), App("Two", <<App("Two", <<LS("a"), LS("b")>>), TNull>>),
+  \* the explicit optional modifier; a homomorphic mapped type in a generic; instances of a generic interface with an extends clause
+  MappedPlus(RK, TNumber), MappedPlus(KeyOf(RP), TBoolean),
+  App("BoxG", <<TString>>), OO(<<Prop("b", App("BoxG", <<TBoolean>>), FALSE), Prop("x", Ref("X"), FALSE)>>),
+  \* indexed access by a literal key that only the index signature covers (alone, and in a union with an object that declares it)
+  Index(Obj(<<Prop("a", TString, FALSE)>>, <<Ix(TString, Uni(<<TString, TNumber>>))>>), LS("b")),
+  Index(Uni(<<Obj(<<Prop("a", LN("1"), FALSE)>>, <<Ix(TString, TNumber)>>), OO(<<Prop("z", LN("2"), FALSE), Prop("a", LS("s"), FALSE)>>)>>), Uni(<<LS("a"), LS("z")>>)),
   \* two sub-validators of one program that differ in one attribute only (optional index value; in both orders of emission)
   OO(<<Prop("a", Util("Record", <<TString, TNumber>>), FALSE), Prop("b", Util("Partial", <<Util("Record", <<TString, TNumber>>)>>), FALSE)>>),
   OO(<<Prop("a", Util("Partial", <<Util("Record", <<TString, TNumber>>)>>), FALSE), Prop("b", Util("Record", <<TString, TNumber>>), FALSE)>>),
